@@ -103,3 +103,12 @@ META["C17"] = dict(technique=_FN_TECH, note=_FN_NOTE,
 META["C18"] = dict(technique=_FN_TECH, note=_FN_NOTE,
     text="EnvelopeTamper.tla: for every base configuration x mutation class x verifier context the outcome of unsealing is within the allowed set "
          "(never a different payload; other context => ErrContextMismatch; payload / envelope-id tampering => failure); wire-level truncation, bit flips and garbage never panic.")
+REGISTRY["C38"] = ("fn", "c38")
+REGISTRY["C39"] = ("fn", "c39")
+META["C38"] = dict(technique=_FN_TECH, note=_FN_NOTE,
+    text="ConfParse.tla: protocol ids accepted exactly when non-empty valid UTF-8 (all sequences of 0-3 byte groups incl. truncated lead + continuation, overlong, surrogate, 0xff); "
+         "timestamps / durations / URLs / transport addresses accept exactly the grammar classes and format-then-parse gives the same value (incl. sub-second timestamps); "
+         "ParsePeerAddressMap over every list of 0-3 entries returns per peer the sorted duplicate-free set of exactly its addresses and one error per malformed entry; seeded random strings never panic.")
+META["C39"] = dict(technique=_FN_TECH, note="Temp-dir file system; permission errors are represented by ENOTDIR / directory states because the checks run as root.",
+    text="KeyFile.tla models OpenOrWritePrivKey as a state machine over the state of the path; every state is replayed with two consecutive loads: result is a usable key xor an error, "
+         "a missing file is created and reloads to the same identity, empty / garbage / wrong-type / public-key PEM / directory / path-below-a-file states are errors.")
